@@ -11,7 +11,12 @@ mod c04;
 mod c05;
 mod c08;
 mod c09;
+#[path = "../../shared/devs.rs"]
 mod devs;
+#[path = "../../shared/sutcore.rs"]
+mod sutcore;
+#[path = "../../shared/workload.rs"]
+mod workload;
 mod c10;
 mod c11;
 mod c12;
@@ -21,6 +26,7 @@ mod c15;
 mod c16;
 mod c17;
 mod c18;
+mod c19;
 mod c20;
 mod mp;
 mod sut;
@@ -50,6 +56,7 @@ macro_rules! dispatch {
             "C16" => $f::<c16::C16>($($arg),*),
             "C17" => $f::<c17::C17>($($arg),*),
             "C18" => $f::<c18::C18>($($arg),*),
+            "C19" => $f::<c19::C19>($($arg),*),
             "C20" => $f::<c20::C20>($($arg),*),
             other => {
                 eprintln!("unknown property id {}", other);
